@@ -192,6 +192,8 @@ def _rowwise(chc, canon, arr):
             warnings.simplefilter('error')
             res = chc._unpack_euler16(arr.astype(np.uint16))
         T = np.concatenate([np.asarray(a, dtype=np.float64).reshape(len(arr), 3) for a in res], axis=1)
+    except MemoryError:
+        raise
     except Exception as e:  # noqa: BLE001
         return {'class': classify(e), 'error': repr(e)[:200]}
     d = np.abs(T - canon[arr])
@@ -220,7 +222,13 @@ def _row_independence(chc, canon, seed, big_n=0):
         arrays.append(np.random.default_rng(seed + 1).integers(0, NCODES, big_n).astype(np.uint16))
     for arr in arrays:
         tried += 1
-        bad = _rowwise(chc, canon, arr)
+        try:
+            bad = _rowwise(chc, canon, arr)
+        except MemoryError:
+            if len(arr) <= 2 * NCODES:
+                raise
+            tried -= 1          # the long column needs about 3 GB: skipped (not judged) on a machine that cannot hold it
+            continue
         if bad is None:
             continue
         if len(arr) > 2 * NCODES:
